@@ -101,6 +101,8 @@ def stress_items(tier, rnd):
             items.append(("stress-leave:%d:%s" % (d, style), leave_prog(d, style), b"", {}))
     # calls that store through an array parameter while other actuals need several temporaries
     items += [(tag, prog, b"", {}) for tag, prog in xgen.argclobber_matrix(rnd, tier)]
+    # element copies between arrays of different sizes at the top of memory
+    items += [(tag, prog, b"", {}) for tag, prog in xgen.arraycopy_matrix(rnd, tier)]
     return items
 
 
